@@ -5,6 +5,7 @@
      sat c m := forall v, v < 32 -> (testbit (cpos c) v = true -> testbit m v = true) /\
                                     (testbit (cneg c) v = true -> testbit m v = false) *)
 From Coq Require Import List NArith Bool Sorting.Sorted.
+From V Require Proofs.ExprsTie2.   (* expressions of cube.rs / ecube.rs / bdd.rs / canonization.rs, regenerated from the Rust source, equal the model's *)
 From V Require Import Base.Res Model.Kernels Model.TwoLevel Spec.Bfun Proofs.CubeProofs.
 Import ListNotations.
 Open Scope N_scope.
